@@ -69,6 +69,103 @@ let show_ev = function
   | EEndP -> "E:P" | EEndX -> "E:X" | EEndR o -> show_out o
   | EO -> "o" | ED -> "d" | EDc c -> Printf.sprintf "D%d" (int_of_nat c) | EV v -> Printf.sprintf "V%d" (int_of_nat v)
   | EK k -> Printf.sprintf "K%d" (int_of_nat k) | EN n -> Printf.sprintf "N%d" (int_of_nat n) | EBool b -> if b then "T" else "F"
+(* ---- nests (std build): an outer join / merge over two inner joins / merges over the leaves.  There is no Coq model of a nest; this is the
+   composition the universality argument describes, carried out with the extracted model on both levels: the inner combinator is run on its own
+   history, each of its polls becomes one scripted step of the outer model's child (answer = what it returned, fires = one self-wake per wake-up
+   of the waker it was handed), each wake-up of that waker between polls becomes a fire operation of the outer model.  Worlds are recomputed from
+   (scripts, history), the model being a pure function of them. ---- *)
+let rec drop_n n l = if n <= 0 then l else match l with [] -> [] | _ :: r -> drop_n (n - 1) r
+let nest_trace (kind: string) (scripts: step list list) (ops: op list) : string list =
+  let nleaf = List.length scripts in
+  let half = nleaf / 2 in
+  let base c = if c = 0 then 0 else half in
+  let inner_of l = if l < half then 0 else 1 in
+  (* handles named inside a leaf's script are global (leaf, k): within the same inner combinator they become local; the co-simulated suites
+     contain no wake-up of a leaf of the other inner combinator from inside a poll *)
+  let localise c (stp: step) = { stp with fires = List.filter_map (fun h -> match h with
+      | HSelf -> Some HSelf
+      | HOf (l, k) -> let l = int_of_nat l in if inner_of l = c then Some (HOf (nat_of_int (l - base c), k)) else None) stp.fires } in
+  let leaves c = List.map (List.map (localise c)) (if c = 0 then List.filteri (fun i _ -> i < half) scripts else List.filteri (fun i _ -> i >= half) scripts) in
+  let run_level scs hist = if kind = "nest_jj" then tr (join_world true false false scs hist) else tr (merge_world true scs hist) in
+  let ihist = [| []; [] |] and itr = [| 0; 0 |] and ipolled = [| false; false |] in
+  let oscs = [| []; [] |] and ohist = ref [] and otr = ref 0 in
+  let out = ref [] in
+  let emit s = out := s :: !out in
+  let to_ans o = (match o with OVals _ | OOk _ -> AReady (ROk O) | OErr e -> AReady (RErr e) | OSome (_, v :: _) -> AItem v | OSome (_, []) -> AItem O | ONone -> AEnd | OErrs _ -> AReady (RErr O)) in
+  (* the outer model's reaction to one wake-up of the waker child c holds: a fire operation between polls *)
+  let outer_fire c =
+    ohist := !ohist @ [OFire (nat_of_int c, O)];
+    let t = run_level [oscs.(0); oscs.(1)] !ohist in
+    let d = drop_n !otr t in otr := List.length t;
+    List.iter (fun e -> match e with EW p -> emit (Printf.sprintf "W%d" (int_of_nat p)) | _ -> ()) d in
+  let results = ref [] in
+  let dropped = ref false in
+  List.iter (fun o -> match o with
+    | OPollFresh | OPollSame ->
+        (* what each inner combinator would answer if it were polled now *)
+        let spec = Array.init 2 (fun c ->
+          let pop = if ipolled.(c) then OPollSame else OPollFresh in
+          let t = run_level (leaves c) (ihist.(c) @ [pop]) in
+          let d = drop_n itr.(c) t in
+          let nw = List.length (List.filter (fun e -> match e with EW _ -> true | _ -> false) d) in
+          let a = (match List.rev d with EEndR r :: _ -> to_ans r | EEndX :: _ -> APanic | _ -> APend) in
+          (pop, t, d, { fires = List.init nw (fun _ -> HSelf); answer = a })) in
+        ohist := !ohist @ [o];
+        let t = run_level [oscs.(0) @ [let (_, _, _, s) = spec.(0) in s]; oscs.(1) @ [let (_, _, _, s) = spec.(1) in s]] !ohist in
+        let d = drop_n !otr t in otr := List.length t;
+        (* walk the outer poll; a poll of child c is replaced by what happened inside the inner combinator *)
+        let rec walk evs pending =
+          (match evs with
+           | [] -> ()
+           | EB p :: r -> emit (Printf.sprintf "B%d" (int_of_nat p)); walk r pending
+           | EC (c, _) :: r ->
+               let c = int_of_nat c in
+               let (pop, it, idelta, stp) = spec.(c) in
+               ihist.(c) <- ihist.(c) @ [pop]; itr.(c) <- List.length it; ipolled.(c) <- true; oscs.(c) <- oscs.(c) @ [stp];
+               (* the outer model's events for the self-wakes of this step: groups EF c h [EW p] *)
+               let rec groups evs acc = (match evs with
+                 | EF _ :: EW p :: r2 -> groups r2 (Some p :: acc)
+                 | EF _ :: r2 -> groups r2 (None :: acc)
+                 | r2 -> (List.rev acc, r2)) in
+               let (gs, r') = groups r [] in
+               let gs = ref gs in
+               List.iter (fun e -> match e with
+                 | EC (j, _) -> let l = base c + int_of_nat j in emit (Printf.sprintf "c%d:S%d" l l)
+                 | EF (j, k) -> emit (Printf.sprintf "f%d.%d" (base c + int_of_nat j) (int_of_nat k))
+                 | EW _ -> (match !gs with Some p :: g -> gs := g; emit (Printf.sprintf "W%d" (int_of_nat p)) | None :: g -> gs := g | [] -> ())
+                 | EAns a -> emit (show_ans a)
+                 | EDc j -> emit (Printf.sprintf "D%d" (base c + int_of_nat j))
+                 | EEndR r -> results := (c, r) :: !results
+                 | _ -> ()) idelta;
+               walk r' pending
+           | EAns _ :: r | EDc _ :: r -> walk r pending          (* the outer model's view of the inner combinator as a child *)
+           | ED :: r -> emit "d"; dropped := true; walk r pending
+           | EEndP :: r -> emit "E:P"; walk r pending
+           | EEndX :: r -> emit "E:X"; walk r pending
+           | EEndR ONone :: r -> emit "E:N"; walk r pending
+           | EEndR (OSome (_, vs)) :: r -> emit ("E:S[" ^ ints vs ^ "]"); walk r pending
+           | EEndR _ :: r ->
+               let vals c = (match List.assoc_opt c !results with Some (OVals vs) -> vs | _ -> []) in
+               emit ("E:R[" ^ ints (vals 0 @ vals 1) ^ "]"); walk r pending
+           | _ :: r -> walk r pending) in
+        walk d ()
+    | OFire (l, k) ->
+        let l = int_of_nat l in
+        let c = if l < half then 0 else 1 in
+        ihist.(c) <- ihist.(c) @ [OFire (nat_of_int (l - base c), k)];
+        let t = run_level (leaves c) ihist.(c) in
+        let d = drop_n itr.(c) t in itr.(c) <- List.length t;
+        List.iter (fun e -> match e with
+          | EO -> emit "o"
+          | EF (j, k) -> emit (Printf.sprintf "f%d.%d" (base c + int_of_nat j) (int_of_nat k))
+          | EW _ -> outer_fire c
+          | _ -> ()) d
+    | ODrop -> emit "d"; dropped := true; ohist := !ohist @ [ODrop]; otr := List.length (run_level [oscs.(0); oscs.(1)] !ohist);
+               Array.iteri (fun c _ -> ihist.(c) <- ihist.(c) @ [ODrop]; itr.(c) <- List.length (run_level (leaves c) ihist.(c))) ihist
+    | OMut _ -> ()) ops;
+  if not !dropped then emit "d";
+  List.rev !out
+
 let () =
   let selective = Sys.argv.(1) = "std" in
   try while true do
@@ -97,10 +194,12 @@ let () =
           | "wait_stream" -> run_wait true scripts ops
           | "fgroup" | "fgroup_keyed" -> run_group selective false (nat_of_int n) ops
           | "sgroup" | "sgroup_keyed" -> run_group selective true (nat_of_int n) ops
+          | "nest_jj" | "nest_mm" -> []
           | _ -> failwith "comb" in
         (* the keys of members born through extend are not observable: their K tokens are printed as a bare `k` (the i-th EK belongs to the i-th insert) *)
         let nk = ref 0 in
         let toks = List.map (fun e -> match e with EK _ -> let i = !nk in incr nk; if Hashtbl.mem ext_born i then "k" else show_ev e | _ -> show_ev e) tr in
+        let toks = if comb = "nest_jj" || comb = "nest_mm" then nest_trace comb scripts ops else toks in
         print_endline (String.concat " " (id :: toks))
       | _ -> failwith "case"
     end
